@@ -36,7 +36,7 @@ Ltac jc3_plus sq x y :=
 Lemma tie_jrot3c_p00 p q r x y br bi cr ci : jrot3c_p00_pc (OO:=ROps) p q r x y br bi cr ci -> jc3_spec p q r x y br bi cr ci (jrot3c_p00 (OO:=ROps) p q r x y br bi cr ci).
 Proof.
   unfold jc3_spec. autounfold with gen; ops_R. cbv beta iota zeta delta [nth firstn skipn Nat.add].
-  set (sq := 1 / 2 * (p - q)) in *. fold (pnorm sq x (- y)). intros [Hp Hq].
+  set (sq := 1 / 2 * (p - q)) in *. rewrite ?(hyp_pnorm sq x (- y)). intros [Hp Hq].
   assert (Ep : p = q + 2 * sq) by (unfold sq; field). clearbody sq. subst p.
   pose proof (pnorm_sq sq x (- y)) as Sp. pose proof (pnorm_ge sq x (- y)) as Pp.
   assert (PP : 0 < pnorm sq x (- y)) by lra. assert (Hd : 0 < pnorm sq x (- y) + sq) by lra.
